@@ -62,6 +62,7 @@ THEOREMS = [
     "Verif.C12.composite_is_sum",
     "Verif.C12.offset_shifts_independent",
     "Verif.C12.routing_by_name",
+    "Verif.C12.validation_by_name",
     "Verif.C12.inverse_round_trip",
     "Verif.C12.dna_parametrisation",
     "Verif.C12.F9_witness",
@@ -2207,8 +2208,26 @@ def cases(tier, rng):
         e = ["b", k, "m"]
         p = draw_params(sub, e)
         xs = base_inputs(sub, e, p, sub.randint(1, 3))
-        m = sub.randint(0, 8)
+        m = sub.randint(0, 9)
         kw = {}
+        if m == 9:
+            # a non-positive parameter in ONE part of a composite / offset / inverted model (theorem validation_by_name):
+            # the model must raise ValueError whichever part owns the parameter
+            if k in SOLVER_KINDS:
+                k = sub.choice([x for x in kinds if x not in SOLVER_KINDS])
+                e = ["b", k, "m"]
+            mates = [x for x in sorted(KINDS) if KINDS[x][2] == KINDS[k][2] and x not in SOLVER_KINDS]
+            e2 = ["b", sub.choice(mates), sub.choice(["m", "n"])]
+            shape = sub.choice(["add-l", "add-r", "off", "off-add", "inv"])
+            full = {"add-l": ["add", e, e2], "add-r": ["add", e2, e], "off": ["off", e], "off-add": ["off", ["add", e2, e]],
+                    "inv": ["inv", e, 0.0, 1.0e3, False]}[shape]
+            p = draw_params(sub, full)
+            xs = base_inputs(sub, e, {n: v for n, v in p.items()}, sub.randint(1, 3))
+            own = [n for n in p_names(e) if n.split("/")[-1] in ("Lp", "Lc", "St", "kT")]
+            bad = sub.choice(own)
+            p[bad] = sub.choice([0.0, -1.0, -p[bad]])
+            yield chain_case(full, p, xs, "malformed", False, subseed=i, bad_part=shape)
+            continue
         if k in SOLVER_KINDS and m in (4, 5, 6, 8):
             m = 0  # SciPy's reaction to NaN / out-of-range targets is not part of the property
         if m == 0:
